@@ -50,8 +50,8 @@ def main(chk):
     lines, pend = [], []
     tmpdir = tempfile.mkdtemp(prefix='c02_')
     for it in range(n):
-        case = c01.build_case(chk, rng, chk.tier)
-        if case['stream'] == 'huge' and rng.random() < 0.5:
+        case = c01.build_case(chk, rng, chk.tier, force_ring=(it % 6 == 4))      # every sixth model: a chordless ring of >= 5 cliques
+        if case['stream'] in ('huge', 'compensate') and rng.random() < 0.5:
             continue
         attrs, sizes, total = case['attrs'], case['sizes'], case['total']
         joint = pgmgen.brute_joint(attrs, sizes, [case['pots'][cl] for cl in case['mcl']])
@@ -66,7 +66,7 @@ def main(chk):
         cached = False
         hist = []
         for op in ops:
-            if op == 'krondot' and case['stream'] == 'huge':
+            if op == 'krondot' and case['stream'] in ('huge', 'compensate'):
                 op = 'project'
             hist.append(op)
             info = dict(c01.jsonable(case), op=op, history=list(hist), cache_populated=cached)
